@@ -69,7 +69,7 @@ func (p *Program) calleeName(f *ssa.Function) string {
 	}
 	pk := ""
 	if obj.Pkg() != nil {
-		pk = obj.Pkg().Path()
+		pk = shortPkg(obj.Pkg().Path())
 	}
 	if recv := f.Signature.Recv(); recv != nil {
 		t := recv.Type()
@@ -234,4 +234,22 @@ func (p *Program) MethodOf(t types.Type, name string) *ssa.Function {
 		}
 	}
 	return nil
+}
+
+// shortPkg abbreviates third-party import paths (host/org/repo/.../name[/vN]) to their last
+// element; standard-library paths are kept whole (so crypto/rand and math/rand stay distinct).
+func shortPkg(path string) string {
+	first := path
+	if i := strings.IndexByte(path, '/'); i >= 0 {
+		first = path[:i]
+	}
+	if !strings.Contains(first, ".") {
+		return path
+	}
+	parts := strings.Split(path, "/")
+	last := parts[len(parts)-1]
+	if len(parts) > 1 && len(last) >= 2 && last[0] == 'v' && last[1] >= '0' && last[1] <= '9' {
+		last = parts[len(parts)-2]
+	}
+	return last
 }
